@@ -346,6 +346,11 @@ func (x *Exec) external(fn *ssa.Function, args []Val) (Val, bool) {
 		}
 		return nil, false
 	}
+	if strings.HasPrefix(name, "(*sync.") {
+		if v, ok := x.syncModel(name, args); ok {
+			return v, true
+		}
+	}
 	switch name {
 	case "strings.Replace":
 		if c, ok := concAll(args, 0, 1, 2); ok && args[3].(Int).conc() {
@@ -909,8 +914,76 @@ func (x *Exec) reflectTypeMethod(rt RT, method string, args []Val) Val {
 	switch method {
 	case "Kind":
 		return Int{W: 64, S: false, C: kindOfType(rt.t)}
-	case "String", "Name":
-		return opaque("type-name")
+	case "Name":
+		if n, ok := rt.t.(*types.Named); ok {
+			return strOf(n.Obj().Name())
+		}
+		if b, ok := rt.t.(*types.Basic); ok {
+			return strOf(b.Name())
+		}
+		return strOf("")
+	case "PkgPath":
+		if n, ok := rt.t.(*types.Named); ok && n.Obj().Pkg() != nil {
+			return strOf(n.Obj().Pkg().Path())
+		}
+		return strOf("")
+	case "String":
+		return strOf(types.TypeString(rt.t, func(p *types.Package) string { return p.Name() }))
+	case "NumField":
+		st, ok := rt.t.Underlying().(*types.Struct)
+		if !ok {
+			x.fail("reflect-panic", "")
+		}
+		return mkInt(int64(st.NumFields()))
+	case "Field", "FieldByName":
+		st, ok := rt.t.Underlying().(*types.Struct)
+		if !ok {
+			x.fail("reflect-panic", "")
+		}
+		idx := -1
+		if method == "Field" {
+			i := x.subst(args[0].(Int))
+			if !i.conc() || i.sval() < 0 || int(i.sval()) >= st.NumFields() {
+				x.fail("reflect-panic", "")
+			}
+			idx = int(i.sval())
+		} else {
+			nm, okc := args[0].(Str).concrete()
+			if !okc {
+				panic(unsupported{"Type.FieldByName with symbolic name"})
+			}
+			for i := 0; i < st.NumFields(); i++ {
+				if st.Field(i).Name() == nm {
+					idx = i
+				}
+			}
+		}
+		sft := x.P.prog.ImportedPackage("reflect").Type("StructField").Type()
+		sf := x.zero(sft).(Struct)
+		sfs := sft.Underlying().(*types.Struct)
+		if idx >= 0 {
+			f := st.Field(idx)
+			for k := 0; k < sfs.NumFields(); k++ {
+				switch sfs.Field(k).Name() {
+				case "Name":
+					sf.F[k] = strOf(f.Name())
+				case "Type":
+					sf.F[k] = Iface{T: types.Typ[types.UnsafePointer], V: RT{f.Type()}}
+				case "Index":
+					sf.F[k] = Slice{Arr: x.newCell(Array{E: []Val{mkInt(int64(idx))}}, "sfindex"), Len: 1, Cap: 1}
+				case "Anonymous":
+					sf.F[k] = Bool{C: f.Embedded()}
+				case "PkgPath":
+					if !f.Exported() && f.Pkg() != nil {
+						sf.F[k] = strOf(f.Pkg().Path())
+					}
+				}
+			}
+		}
+		if method == "Field" {
+			return sf
+		}
+		return Tuple{sf, Bool{C: idx >= 0}}
 	case "Elem":
 		switch t := rt.t.Underlying().(type) {
 		case *types.Pointer:
@@ -926,6 +999,9 @@ func (x *Exec) reflectExt(name string, args []Val) Val {
 	rv := func() RVal {
 		r, ok := args[0].(RVal)
 		if !ok {
+			if _, isZero := args[0].(Struct); isZero {
+				return RVal{} // the zero reflect.Value
+			}
 			panic(unsupported{"reflect.Value of unknown provenance in " + name})
 		}
 		return r
@@ -1043,6 +1119,42 @@ func (x *Exec) reflectExt(name string, args []Val) Val {
 			}
 		}
 		return RVal{}
+	case "(reflect.Value).NumField":
+		r := rv()
+		mustValid(r)
+		st, ok := r.t.Underlying().(*types.Struct)
+		if !ok {
+			x.fail("reflect-panic", "")
+		}
+		return mkInt(int64(st.NumFields()))
+	case "(reflect.Value).Field":
+		r := rv()
+		mustValid(r)
+		st, ok := r.t.Underlying().(*types.Struct)
+		i := x.subst(args[1].(Int))
+		if !ok || !i.conc() || i.sval() < 0 || int(i.sval()) >= st.NumFields() {
+			x.fail("reflect-panic", "")
+		}
+		return RVal{t: st.Field(int(i.sval())).Type(), v: r.v.(Struct).F[i.sval()], valid: true}
+	case "(reflect.Value).FieldByIndex":
+		r := rv()
+		mustValid(r)
+		cur := r
+		for _, e := range x.sliceElems(args[1].(Slice)) {
+			i := x.subst(e.(Int))
+			if p, isPtr := cur.v.(Ptr); isPtr {
+				if p.Base == nil {
+					x.fail("reflect-panic", "")
+				}
+				cur = RVal{t: cur.t.Underlying().(*types.Pointer).Elem(), v: x.load(p), valid: true}
+			}
+			st, ok := cur.t.Underlying().(*types.Struct)
+			if !ok || !i.conc() || i.sval() < 0 || int(i.sval()) >= st.NumFields() {
+				x.fail("reflect-panic", "")
+			}
+			cur = RVal{t: st.Field(int(i.sval())).Type(), v: cur.v.(Struct).F[i.sval()], valid: true}
+		}
+		return cur
 	case "(reflect.Value).Type":
 		r := rv()
 		mustValid(r)
@@ -1161,4 +1273,88 @@ func (x *Exec) deepEqVal(t types.Type, av, bv Val) Bool {
 		return Bool{C: a.F == nil && bv.(Fn).F == nil}
 	}
 	return x.binop(token.EQL, av, bv).(Bool)
+}
+
+// syncModel: sync.Map as an association list per map object (its operations
+// are synchronised, so they are not frame writes); Mutex/RWMutex are no-ops
+// in a single-threaded execution; Once runs its function once per path.
+func (x *Exec) syncModel(name string, args []Val) (Val, bool) {
+	key := func() string {
+		p := args[0].(Ptr)
+		if p.Base == nil {
+			x.fail("nil-deref", "")
+		}
+		k := fmt.Sprintf("%p", p.Base)
+		for _, st := range p.Path {
+			if st.Idx != nil {
+				k += fmt.Sprintf("[%d]", st.Idx.C)
+			} else {
+				k += fmt.Sprintf(".%d", st.Field)
+			}
+		}
+		return k
+	}
+	switch name {
+	case "(*sync.Mutex).Lock", "(*sync.Mutex).Unlock", "(*sync.RWMutex).Lock", "(*sync.RWMutex).Unlock", "(*sync.RWMutex).RLock", "(*sync.RWMutex).RUnlock":
+		return nil, true
+	case "(*sync.Once).Do":
+		k := key()
+		if x.onceDone == nil {
+			x.onceDone = map[string]bool{}
+		}
+		if !x.onceDone[k] {
+			x.onceDone[k] = true
+			f := args[1].(Fn)
+			x.call(f.F, nil, f.Env)
+		}
+		return nil, true
+	case "(*sync.Map).Load", "(*sync.Map).Store", "(*sync.Map).LoadOrStore", "(*sync.Map).Delete":
+		k := key()
+		if x.syncMaps == nil {
+			x.syncMaps = map[string]*Map{}
+		}
+		m := x.syncMaps[k]
+		if m == nil {
+			m = &Map{Epoch: x.epoch}
+			x.syncMaps[k] = m
+		}
+		find := func() int {
+			for i := range m.Keys {
+				e := x.binop(token.EQL, m.Keys[i], args[1]).(Bool)
+				if x.truth(e) {
+					return i
+				}
+			}
+			return -1
+		}
+		switch name {
+		case "(*sync.Map).Load":
+			if i := find(); i >= 0 {
+				return Tuple{m.Vals[i], Bool{C: true}}, true
+			}
+			return Tuple{Iface{}, Bool{C: false}}, true
+		case "(*sync.Map).Store":
+			if i := find(); i >= 0 {
+				m.Vals = append(append([]Val{}, m.Vals[:i]...), append([]Val{args[2]}, m.Vals[i+1:]...)...)
+			} else {
+				m.Keys = append(append([]Val{}, m.Keys...), args[1])
+				m.Vals = append(append([]Val{}, m.Vals...), args[2])
+			}
+			return nil, true
+		case "(*sync.Map).LoadOrStore":
+			if i := find(); i >= 0 {
+				return Tuple{m.Vals[i], Bool{C: true}}, true
+			}
+			m.Keys = append(append([]Val{}, m.Keys...), args[1])
+			m.Vals = append(append([]Val{}, m.Vals...), args[2])
+			return Tuple{args[2], Bool{C: false}}, true
+		default:
+			if i := find(); i >= 0 {
+				m.Keys = append(append([]Val{}, m.Keys[:i]...), m.Keys[i+1:]...)
+				m.Vals = append(append([]Val{}, m.Vals[:i]...), m.Vals[i+1:]...)
+			}
+			return nil, true
+		}
+	}
+	return nil, false
 }
